@@ -501,7 +501,7 @@ struct driver
     for (mask_t m : masks)
       for (unsigned e = 0; e < N; ++e)
         for (unsigned p = 0; p < num_prov; ++p)
-          if (N <= 8 || (m + e + p) % 2 == 0) elem_record(p, m, e);
+          if (N <= 8 || (m + e + p) % 3 == 0) elem_record(p, m, e);
     // the same subset produced in two ways: all 36 combinations
     for (mask_t m : masks)
     {
